@@ -14,6 +14,7 @@ package metrics
 //@   noframe
 //@   wraps_signed
 //@   requires c != nil
+//@   modifies c.history
 //@   assert_at "newHistory = append(newHistory, h)": last == nil
 //@   loop 1:
 //@     modifies nothing
